@@ -64,6 +64,12 @@ CTYPES = [None, "text/plain", "text/html", "application/json", "application/xml"
           "application/x-www-form-urlencoded", "multipart/form-data; boundary=b", "image/png", "application/octet-stream",
           "application/grpc", "application/dns-message", "application/x-protobuf", "application/zip", "application/msgpack",
           "application/vnd.ms-sync.wbxml", "image/svg+xml"]
+# Content-Type header values outside the type/subtype[; param=value]* form: no slash, empty, parameters only, garbage
+# octets, odd separators, the header given twice (a message's metadata is built from whatever the peer sent)
+ODD_CTYPES = ["", " ", "json", "*", "text; charset=utf-8", "; charset=utf-8", ";", "/", "text/", "/html", "a/b/c", "text/html;;;",
+              "text/html; charset", "text/html; =x", "TEXT/HTML; CHARSET=UTF-8", "text /html", "multipart/form-data", "multipart/form-data; boundary=",
+              b"\xff\xfe", b"text/\xc2\x9b", b"application/json\x00", "x" * 300, ["text/plain", "application/json"], ["json", "text/html"], ["", ""]]
+ODD_DATA = [b"", b"\x00", b"\x1b", b"{", b"<", b"\xff", b'{"a": 1}', b"<a>b</a>", b"a=1&b=2", b"--b\r\n\r\nx\r\n--b--"]
 KINDS_EXPLICIT = ["http_resp", "http_req_multipart", "http_req_query", "tcp", "tcp_h3b", "udp", "ws_text", "ws_binary"]
 KINDS_AUTO_EXTRA = ["http_req", "http_req_query", "http_resp_badgzip", "tcp", "tcp_h3b", "tcp_h3u", "tcp_dns", "udp", "udp_dns",
                     "ws_text", "ws_binary", "ws_socketio"]
@@ -88,8 +94,11 @@ def mk_message(kind, data, ctype=None):
             m.data.content = data
         if kind == "http_req_multipart":
             ctype = "multipart/form-data; boundary=b"
-        if ctype:
-            set_header(m.headers, b"content-type", ctype.encode())
+        if ctype is not None:
+            # str: one header; bytes: one header with exactly these octets; list: the header repeated
+            values = ctype if isinstance(ctype, list) else [ctype]
+            m.headers.fields = tuple(x for x in m.headers.fields if x[0].lower() != b"content-type") + tuple(
+                (b"content-type", v if isinstance(v, bytes) else v.encode()) for v in values)
         if kind == "http_resp_badgzip":
             set_header(m.headers, b"content-encoding", b"gzip")
         return m, f
@@ -154,6 +163,12 @@ def bytes_cases(tier):
             out.append({"part": "bytes", "view": "auto", "kind": "http_resp", "ctype": ct, "data": s})
         for k in KINDS_AUTO_EXTRA:
             out.append({"part": "bytes", "view": "auto", "kind": k, "ctype": None, "data": s})
+    # odd Content-Type values: every view and auto, request and response
+    for ct in ODD_CTYPES:
+        for v in view_names():
+            for k in ("http_resp", "http_req"):
+                for s in (ODD_DATA if thorough or v == "auto" else ODD_DATA[0:7:2]):
+                    out.append({"part": "bytes", "view": v, "kind": k, "ctype": ct, "data": s})
     return out
 
 
@@ -451,6 +466,19 @@ def controls(text):
     return out
 
 
+def ctype_class(ct):
+    """none | wellformed (type/subtype before any ';') | malformed | repeated - judged by the check itself"""
+    if ct is None:
+        return "none"
+    if isinstance(ct, list):
+        return "repeated"
+    b = ct if isinstance(ct, bytes) else ct.encode()
+    head = b.split(b";", 1)[0]
+    parts = head.split(b"/")
+    ok = len(parts) == 2 and all(p.strip() and all(32 < c < 127 for c in p.strip()) for p in parts)
+    return "wellformed" if ok else "malformed"
+
+
 def kind_class(kind):
     return kind.split("_")[0]
 
@@ -481,7 +509,7 @@ def render(message, flow, view, t: Tally, case, feats):
 def one_render(case, t: Tally, verbose=False):
     setup()
     message, flow = mk_message(case["kind"], case["data"], case["ctype"])
-    feats = {"view": case["view"], "kind": kind_class(case["kind"])}
+    feats = {"view": case["view"], "kind": kind_class(case["kind"]), "ct": ctype_class(case["ctype"])}
     res = render(message, flow, case["view"], t, case, feats)
     if verbose and res is not None:
         print("  view=%r highlight=%r description=%r\n  text=%r" % (res.view_name, res.syntax_highlight, res.description, res.text[:600]))
@@ -642,6 +670,8 @@ def run(ctx):
                          "explicit view x http_resp over %s" % ["%02x" % b for b in ALPHA_6]: 4 if ctx.thorough else 3,
                          "auto x content types / kinds": 3},
         "content_types": CTYPES, "auto_kinds": KINDS_AUTO_EXTRA,
+        "odd_content_types": [repr(x) if len(x) < 40 else repr(x[:10]) + "..." for x in ODD_CTYPES],
+        "odd_content_type_cases": "every view and auto x request/response x %d bodies (%d for explicit views in quick)" % (len(ODD_DATA), 4),
         "seeds": [s[0] for s in SEEDS], "seed_mutations": "every truncation, every single-byte substitution from %s%s" % (
             ["%02x" % b for b in (SUBST_T if ctx.thorough else SUBST)], ", every single-byte deletion" if ctx.thorough else ""),
         "dns_messages": len(dc) // len(DNS_KINDS), "dns_metadata_kinds": DNS_KINDS,
